@@ -59,7 +59,7 @@ func (t *Queue[T]) Add(value T, scheduledTime time.Time) (addedElement *QueueEle
 
 		return nil
 	}
-	verifAddHook(scheduledTime)
+	verifAddHook(t, scheduledTime)
 
 	// add new element
 
@@ -178,6 +178,7 @@ func (t *Queue[T]) Poll(waitIfEmpty bool) T {
 		// retrieve first element
 		//nolint:forcetypeassert // false positive, we know that the element is of type *QueueElement[T]
 		polledElement := heap.Pop(&t.heap).(*generalheap.HeapElement[HeapKey, *QueueElement[T]])
+		verifPopHook(t, time.Time(polledElement.Key))
 		// release locks
 		t.heapMutex.Unlock()
 
